@@ -256,7 +256,7 @@ func (t *tracker) observe() obs {
 
 // ---------- watchdog ----------
 
-var slowOps int
+var slowOps, hangsSeen int
 
 // guarded runs f in its own goroutine: "ok", "panic", or "hang" (no return within 300 ms, confirmed by
 // a further 4 s of grace so that a merely busy machine is not mistaken for a deadlock).
@@ -278,11 +278,16 @@ func guarded(f func()) string {
 		return k
 	case <-t.C:
 	}
+	grace := 4 * time.Second
+	if hangsSeen >= 3 {
+		grace = 700 * time.Millisecond // a real deadlock is established; do not spend 4 s on every further one
+	}
 	select {
 	case k := <-done:
 		slowOps++
 		return k
-	case <-time.After(4 * time.Second):
+	case <-time.After(grace):
+		hangsSeen++
 		return "hang"
 	}
 }
